@@ -637,6 +637,17 @@ impl NNum {
     }
 }
 
+// Equal numbers must hash equally whatever their level: an integral value hashes as the integer, a
+// non-integral finite value as its exact fraction in lowest terms (floats are dyadic rationals).
+fn consistent_hash_fraction<H: Hasher>(r: &BigRational, state: &mut H) {
+    if r.is_integer() {
+        NInt::hash(&NInt::from(r.numer().clone()), state)
+    } else {
+        NInt::hash(&NInt::from(r.numer().clone()), state);
+        NInt::hash(&NInt::from(r.denom().clone()), state);
+    }
+}
+
 fn consistent_hash_f64<H: Hasher>(f: f64, state: &mut H) {
     match to_nint_if_int(f) {
         Some(s) => NInt::hash(&s, state),
@@ -645,9 +656,12 @@ fn consistent_hash_f64<H: Hasher>(f: f64, state: &mut H) {
                 // some nan from wikipedia (not that this matters)
                 state.write_u64(0x7FF0000000000001u64)
             } else {
-                // I *think* this actually obeys the laws...?
-                // (+/- 0 are handled by the bigint branch)
-                f.to_bits().hash(state)
+                match BigRational::from_float(f) {
+                    // (+/- 0 are handled by the bigint branch)
+                    Some(r) => consistent_hash_fraction(&r, state),
+                    // infinities: no other level has an equal value
+                    None => f.to_bits().hash(state),
+                }
             }
         }
     }
@@ -657,17 +671,19 @@ impl NNum {
     pub fn total_hash<H: Hasher>(&self, state: &mut H) {
         match self {
             NNum::Int(a) => NInt::hash(&a, state),
-            NNum::Rational(r) => {
-                // TODO: should we make rationals consistent with floats?
-                BigInt::hash(r.numer(), state);
-                if !r.denom().is_one() {
-                    BigInt::hash(r.denom(), state);
-                }
-            }
+            NNum::Rational(r) => consistent_hash_fraction(r, state),
             NNum::Float(f) => consistent_hash_f64(*f, state),
             NNum::Complex(z) => {
-                consistent_hash_f64(z.re, state);
-                consistent_hash_f64(z.im, state);
+                if z.re.is_nan() || z.im.is_nan() {
+                    // as keys all NaNs are one value
+                    consistent_hash_f64(f64::NAN, state)
+                } else {
+                    consistent_hash_f64(z.re, state);
+                    // a complex number with zero imaginary part equals its real part
+                    if z.im != 0.0 {
+                        consistent_hash_f64(z.im, state);
+                    }
+                }
             }
         }
     }
